@@ -58,6 +58,8 @@ struct GateInner {
     names: HashMap<(u8, Id), String>,
     /// if false, calls pass through without parking
     enabled: bool,
+    /// if set, the gate stays open whatever `set_enabled` says (plain runs of gated closures)
+    locked_open: bool,
 }
 
 pub struct Gate {
@@ -91,7 +93,18 @@ impl Gate {
     }
 
     pub fn set_enabled(&self, e: bool) {
-        self.inner.lock().unwrap().enabled = e;
+        let mut g = self.inner.lock().unwrap();
+        g.enabled = e && !g.locked_open;
+        drop(g);
+        self.cv.notify_all();
+    }
+
+    /// keep the gate open for good
+    pub fn lock_open(&self) {
+        let mut g = self.inner.lock().unwrap();
+        g.locked_open = true;
+        g.enabled = false;
+        drop(g);
         self.cv.notify_all();
     }
 
